@@ -441,7 +441,15 @@ func buildMux(rules []ARule, order []int, plan regPlan, tr *rng) (rm *rmux) {
 		rm.err = fmt.Errorf("schema: %w", err)
 		return rm
 	}
-	opts := []larking.MuxOption{larking.FilesOption(files)}
+	muxFiles := files
+	if tr != nil && tr.Intn(4) == 0 {
+		// a rolling upgrade: the mux knows a newer revision of the messages (a field added in front, every index moved)
+		// than the handlers were built against
+		if fr, _, err := BuildFilesRev(svcs); err == nil {
+			muxFiles = fr
+		}
+	}
+	opts := []larking.MuxOption{larking.FilesOption(muxFiles)}
 	if plan.src == "config" {
 		opts = append(opts, larking.ServiceConfigOption(cfg))
 	}
